@@ -4,6 +4,8 @@ package node
 
 import (
 	"context"
+	"crypto/sha256"
+	"strings"
 	"time"
 	"os"
 	"database/sql"
@@ -153,3 +155,8 @@ func confBatch(t testing.TB, r *rand.Rand, nTx int) *fat2.TransactionBatch {
 }
 
 func newConfRand(seed int64) *rand.Rand { return rand.New(rand.NewSource(seed)) }
+
+func confHash(lines []string) string {
+	s := sha256.Sum256([]byte(strings.Join(lines, "\n")))
+	return fmt.Sprintf("%x", s[:8])
+}
